@@ -145,6 +145,11 @@ type ctlBody struct {
 	chunk    int // max bytes per Read (0 = unlimited)
 	closed   bool
 	reads    int
+	onEOF    func() // called (once) when the handler has read the body to its end
+	sawEOF   bool
+	// onConnErr: called (once) when a Read reports the connection's failure
+	onConnErr   func()
+	connErrSeen bool
 }
 
 func newCtlBody(data []byte) *ctlBody {
@@ -161,9 +166,15 @@ func (b *ctlBody) Read(p []byte) (int, error) {
 		b.cond.Wait()
 	}
 	if b.failAt >= 0 && b.off >= b.failAt {
+		// the connection failed under a body read: net/http's connection reader cancels the request context
+		if b.onConnErr != nil && !b.connErrSeen {
+			b.connErrSeen = true
+			go b.onConnErr()
+		}
 		return 0, b.failErr
 	}
 	if b.off >= len(b.data) {
+		b.hitEOFLocked()
 		return 0, io.EOF
 	}
 	n := len(p)
@@ -182,7 +193,20 @@ func (b *ctlBody) Read(p []byte) (int, error) {
 	copy(p, b.data[b.off:b.off+n])
 	b.off += n
 	b.consumed += int64(n)
+	if b.off >= len(b.data) && b.failAt < 0 {
+		// net/http notices the end of a body as soon as its last declared byte has been handed out
+		b.hitEOFLocked()
+	}
 	return n, nil
+}
+
+func (b *ctlBody) hitEOFLocked() {
+	if !b.sawEOF {
+		b.sawEOF = true
+		if b.onEOF != nil {
+			go b.onEOF()
+		}
+	}
 }
 
 func (b *ctlBody) Close() error {
@@ -266,6 +290,17 @@ func Do(h http.Handler, spec ReqSpec) *Exchange {
 		}
 		e.body = b
 		req.Body = b
+		// net/http watches the connection for the client going away only once the handler has consumed the
+		// request body (it starts its background read when the body hits EOF): see Abort
+		b.onEOF = func() {
+			e.mu.Lock()
+			gone := e.Aborted
+			e.mu.Unlock()
+			if gone {
+				cancel()
+			}
+		}
+		b.onConnErr = cancel
 		if spec.ContentLength == -2 {
 			req.ContentLength = int64(len(spec.Body))
 		} else {
@@ -297,12 +332,24 @@ func Do(h http.Handler, spec ReqSpec) *Exchange {
 	return e
 }
 
-// Abort emulates the client going away: the request context is cancelled.
+// Abort emulates the client going away. As with net/http, the request context is cancelled at once only when
+// the request has no body or the handler has already read it to the end; while body bytes are unread the
+// server does not watch the connection, so the handler only learns of it through a failing body read (the
+// unread remainder is lost with the connection; that failing read also cancels the context, as net/http's
+// connection reader does) or not at all.
 func (e *Exchange) Abort() {
 	e.mu.Lock()
 	e.Aborted = true
 	e.mu.Unlock()
-	e.cancel()
+	unread := false
+	if e.body != nil {
+		e.body.mu.Lock()
+		unread = !e.body.sawEOF
+		e.body.mu.Unlock()
+	}
+	if !unread {
+		e.cancel()
+	}
 	if e.body != nil {
 		// a real server's body read fails once the connection is gone
 		e.body.mu.Lock()
